@@ -20,6 +20,10 @@ type bridgeIn struct {
 	Values    []fmtValue `json:"values"`
 	Directive int        `json:"directive"`
 	CValues   []string   `json:"cvalues"`
+	// cobra2c: the directive comes out of a completion function bridged with ActionCobra and the word under the cursor is Typed
+	// (otherwise the directive is converted directly and nothing is typed)
+	Via   bool   `json:"via"`
+	Typed string `json:"typed"`
 }
 
 var bridgeDir string
@@ -58,7 +62,12 @@ func runBridge(raw json.RawMessage) interface{} {
 		return map[string]interface{}{"lines": lines, "directive": int(d)}
 	}
 	a := carapace.VerifDirectiveAction(cobra.ShellCompDirective(in.Directive), in.CValues...)
-	res := invokeSafe(a, carapace.Context{Dir: bridgeScratch()})
+	if in.Via {
+		a = carapace.ActionCobra(func(cmd *cobra.Command, args []string, toComplete string) ([]string, cobra.ShellCompDirective) {
+			return append([]string{}, in.CValues...), cobra.ShellCompDirective(in.Directive)
+		})
+	}
+	res := invokeSafe(a, carapace.Context{Dir: bridgeScratch(), Value: in.Typed})
 	vals := [][2]string{}
 	for _, v := range res.Values {
 		vals = append(vals, [2]string{v.Value, v.Description})
@@ -82,6 +91,10 @@ func genBridge(r *rng, tier string) interface{} {
 		return in
 	}
 	in := bridgeIn{Dir: "cobra2c", Directive: r.intn(64)}
+	if r.chance(40) {
+		in.Via = true
+		in.Typed = pick(r, []string{"", "a", "b", "d", "d/", "d/x", "o", "t", "x", "go"})
+	}
 	switch r.intn(5) {
 	case 0:
 		in.CValues = []string{}
